@@ -10,7 +10,7 @@
    Illegal ops (documented preconditions violated) are no-ops in the model, so "for all op
    lists" means "for all legal histories, interleaved with arbitrary rejected calls". *)
 From Coq Require Import List. Import ListNotations.
-From Adapt Require Import Avoid.LifecycleModel Avoid.Lifecycle Avoid.LifecycleCP.
+From Adapt Require Import Avoid.LifecycleModel Avoid.Lifecycle Avoid.LifecycleCP Avoid.LifecyclePinModel Avoid.LifecyclePin.
 
 (* no queued pointer (action object, queued connector-end copy, attached follower) and no entry of a
    connector's checkpoint-vertex list is dereferenced after its object was freed, and nothing is freed
@@ -163,3 +163,61 @@ Proof.
               demo_before_fixes))))).
 Qed.
 Print Assumptions C15_nonvacuous.
+
+(* ---- third layer: connection pins as heap objects owned by their shape / junction (Avoid/LifecyclePinModel.v, LifecyclePin.v;
+   ops PNewPin = new ShapeConnectionPin, PDelPin = delete pin).  `prun fk fl fc fp t p ops`; fp = true is the current code,
+   fp = false the variant in which a second pin of an owner compares equivalent and is not inserted into the owner's set. ---- *)
+Theorem C15_pin_layer_extends_checkpoint_layer : forall t p ops,
+  xs (prun true true true true t p ops) = xrun true true true t p (x_ops ops).
+Proof. exact pin_xs_is_xrun. Qed.
+Print Assumptions C15_pin_layer_extends_checkpoint_layer.
+
+Theorem C15_pin_no_use_after_free : forall t p ops,
+  pbad (prun true true true true t p ops) = [] /\
+  bad (core (xs (prun true true true true t p ops))) = [] /\
+  vbad (xs (prun true true true true t p ops)) = [].
+Proof. exact pin_no_use_after_free. Qed.
+Print Assumptions C15_pin_no_use_after_free.
+
+Theorem C15_pins_owned : forall t p ops o q,
+  In (o, q) (pown (prun true true true true t p ops)) ->
+  In o (heap (core (xs (prun true true true true t p ops)))) /\ In q (pheap (prun true true true true t p ops)).
+Proof. exact pin_pins_owned. Qed.
+Print Assumptions C15_pins_owned.
+
+Theorem C15_pin_sets_disjoint : forall t p ops, NoDup (map snd (pown (prun true true true true t p ops))).
+Proof. exact pin_sets_disjoint. Qed.
+Print Assumptions C15_pin_sets_disjoint.
+
+Theorem C15_no_orphan_pin : forall t p ops q,
+  In q (pheap (prun true true true true t p ops)) -> exists o, In (o, q) (pown (prun true true true true t p ops)).
+Proof. exact pin_no_orphan. Qed.
+Print Assumptions C15_no_orphan_pin.
+
+Theorem C15_pin_heap_nodup_fresh : forall t p ops,
+  NoDup (pheap (prun true true true true t p ops)) /\
+  forall q, In q (pheap (prun true true true true t p ops)) -> ~ In q (pfreed (prun true true true true t p ops)).
+Proof. exact pin_heap_nodup_fresh. Qed.
+Print Assumptions C15_pin_heap_nodup_fresh.
+
+Theorem C15_pin_destroy_releases_all : forall t p ops,
+  alive (core (xs (prun true true true true t p ops))) = false ->
+  pheap (prun true true true true t p ops) = [] /\
+  heap (core (xs (prun true true true true t p ops))) = [] /\
+  vheap (xs (prun true true true true t p ops)) = [].
+Proof. exact pin_destroy_releases_all. Qed.
+Print Assumptions C15_pin_destroy_releases_all.
+
+(* what the correspondence compares: all allocated pins (= pin vertices in the router's vertex list) sit in pin sets *)
+Theorem C15_live_pins_all_owned : forall t p ops,
+  live_pins (prun true true true true t p ops) = length (pown (prun true true true true t p ops)).
+Proof. exact live_pins_all_owned. Qed.
+Print Assumptions C15_live_pins_all_owned.
+
+(* the "second pin of an owner is not owned" variant leaks it at destruction (legal witness history) *)
+Theorem C15_second_pin_not_owned_refuted :
+  exists t p ops, pall_legal true true true false (pinit t p) ops = true /\
+    alive (core (xs (prun true true true false t p ops))) = false /\
+    pheap (prun true true true false t p ops) <> [].
+Proof. exact second_pin_not_owned_refuted. Qed.
+Print Assumptions C15_second_pin_not_owned_refuted.
